@@ -1,7 +1,7 @@
 //@ item: rational/src/third_party/dashu_float.rs :: impl RBig :: to_float
 pub fn to_float<R: Round, const B: Word>(&self, precision: usize) -> Rounded<FBig<R, B>>
 /*@
-    requires tf_to_float_req(R::md(), B, precision, self.0.numerator.v(), self.0.denominator.v()),
+    requires tf_to_float_req(B, precision, self.0.numerator.v(), self.0.denominator.v()),    // see lib/tf_lemmas.rs
     ensures
         // C06: the rational rounded ONCE to `precision` digits in base B by mode R, truthful flag
         ratio_round_once(R::md(), B as int, precision as nat, self.0.numerator.v(), self.0.denominator.v(), map_repr(ret)),
